@@ -64,7 +64,7 @@ def gen_cases(ctx):
     yield {"kind": "train" if i % 6 == 5 else "assign", "L": L, "dims": dims, "units": units, "terms": terms,
            "mono": mono, "mono_mode": mm, "omin": omin, "omax": omax, "bounds": b, "clip": bool(rng.rand() < .5),
            "spelling": str(rng.choice(["int", "str"])), "seed": int(rng.randint(2**31 - 1)),
-           "exec": modes.pick(rng, (0.6, 0.2, 0.2))}
+           "exec": modes.pick(rng, (0.6, 0.2, 0.2)), "dtype": "float64" if rng.rand() < .12 else "float32"}
 
 
 def _grid(case):
@@ -135,10 +135,13 @@ def run_case(ctx, case):
     mono_arg = mono
   layer = tfl.layers.KroneckerFactoredLattice(
       lattice_sizes=case["L"], units=case["units"], num_terms=case["terms"], monotonicities=mono_arg,
-      output_min=case["omin"], output_max=case["omax"], clip_inputs=case["clip"])
+      output_min=case["omin"], output_max=case["omax"], clip_inputs=case["clip"],
+      **({} if case.get("dtype", "float32") == "float32" else {"dtype": case["dtype"]}))
   g, pts = _grid(case)
   units, dims = case["units"], case["dims"]
   X = pts if units == 1 else np.repeat(pts[:, None, :], units, axis=1)
+  X = X.astype(case.get("dtype", "float32"))
+  ctx.cls("dtype:" + case.get("dtype", "float32"))
   layer(tf.constant(X))
   ctx.cls("kind:" + case["kind"], "bounds:" + case["bounds"], "mono:" + case["mono_mode"], "clip:%s" % case["clip"],
           "dims:%d" % dims, "units:%d" % units, "terms:%d" % case["terms"], "L:%d" % case["L"])
